@@ -158,6 +158,8 @@ func genCase(r *c.Rng) *Case {
 		k.NebHost = r.Intn(len(nebSpecs))
 	case 13:
 		k.Prov = c.Pick(r, []string{"k8ssa", "acme"})
+	case 16:
+		k.Prov = c.Pick(r, []string{"awsdcs", "awsdcs", "aws"})
 	case 14, 15:
 		k.Prov = "jwkwh"
 		k.WHE = c.Pick(r, []string{"allow", "allow", "allow", "deny"})
@@ -207,6 +209,10 @@ func genCase(r *c.Rng) *Case {
 		}
 		k.Cnf = ""
 	}
+	if k.Prov == "aws" || k.Prov == "awsdcs" {
+		k.Sub = c.Pick(r, []string{"inst", "inst", "ip", "dns"}) // which of the document's names is the token subject
+		k.SANs, k.NoSANs, k.Cnf = nil, true, ""
+	}
 	if k.Prov == "oidc" {
 		k.Sub = c.Pick(r, []string{"1234567890", "sub with space", "a@example.com", "frag#ment", "ünï", "%41"})
 		if r.Chance(5, 6) {
@@ -228,6 +234,12 @@ func genCase(r *c.Rng) *Case {
 		auth = nil
 		if k.Email != "" {
 			auth = append(auth, k.Email)
+		}
+	}
+	if k.Prov == "aws" || k.Prov == "awsdcs" {
+		auth = []string{awsDNS(), awsIP}
+		if r.Chance(1, 3) {
+			auth = auth[:1]
 		}
 	}
 	if k.Prov == "nebula" { // the CSR is validated against the Nebula certificate, not the token
@@ -319,8 +331,23 @@ func genCase(r *c.Rng) *Case {
 	default:
 		k.CN = k.Sub + " "
 	}
+	if k.Prov == "aws" || k.Prov == "awsdcs" {
+		switch {
+		case r.Chance(1, 3):
+			k.CN = ""
+		case k.Sub == "dns":
+			k.CN = awsDNS()
+		case k.Sub == "ip":
+			k.CN = awsIP
+		default:
+			k.CN = c.Pick(r, []string{"", "", "evil.example.com", awsDNS()})
+		}
+	}
 	if r.Chance(1, 40) {
 		k.BadSig = true
+	}
+	if k.Prov != "acme" && r.Chance(1, 3) {
+		k.Via = "api"
 	}
 	if k.Auth == 0 && (k.Prov == "jwk" || k.Prov == "x5c" || k.Prov == "nebula" || k.Prov == "oidc") && r.Chance(1, 6) {
 		k.RA = true
@@ -389,8 +416,8 @@ func corner() []*Case {
 		{Prov: "jwktpl", Sub: "svc", SANs: []string{"a.example.com"}, HasUExt: true, UExt: []ExtJ{forged[0], forged[0]}, Key: "ec"},
 		{Prov: "jwktpl", Sub: "svc", SANs: []string{"a.example.com"}, Key: "ec"},
 		// claims: authority level x provisioner level
-		{Auth: 1, Prov: "jwk", Sub: "svc", SANs: []string{"a.example.com"}, Key: "ec"},
 		{Auth: 2, Prov: "jwk", Sub: "svc", SANs: []string{"a.example.com"}, Key: "ec"},
+		{Auth: 1, Prov: "jwk", Sub: "svc", SANs: []string{"a.example.com"}, Key: "ec"},
 		{Auth: 2, Prov: "jwkc1", Sub: "svc", SANs: []string{"a.example.com"}, Key: "ec"},
 		{Auth: 3, Prov: "jwk", Sub: "svc", SANs: []string{"a.example.com"}, Key: "ec"},
 		{Auth: 3, Prov: "x5c", Sub: "svc", SANs: []string{"a.example.com"}, Key: "ec"},
@@ -400,6 +427,13 @@ func corner() []*Case {
 		{Auth: 2, Prov: "jwktpl", Sub: "svc", SANs: []string{"a.example.com"}, HasUExt: true, UExt: forged, Key: "ec"},
 		{Auth: 1, Prov: "jwkc4", Sub: "svc", SANs: []string{"a.example.com"}, Key: "ec"},
 		{Auth: 6, Prov: "jwkc5", Sub: "svc", SANs: []string{"a.example.com"}, Key: "ec"},
+		// admin-database form: a provisioner that sets one boolean claim no longer inherits the others
+		{Auth: 1, Prov: "jwkc2", Sub: "svc", SANs: []string{"a.example.com"}, Key: "ec"},
+		{Auth: 1, Prov: "jwkc3", Sub: "svc", SANs: []string{"a.example.com"}, Key: "ec"},
+		{Auth: 1, Prov: "jwkdis", Sub: "svc", SANs: []string{"a.example.com"}, Key: "ec"},
+		{Auth: 1, Prov: "x5c", Sub: "svc", SANs: []string{"a.example.com"}, CN: "svc", Key: "ec"},
+		{Auth: adminIdx, Prov: "jwkc2", Sub: "svc", SANs: []string{"a.example.com"}, Key: "ec"},
+		{Auth: adminIdx, Prov: "jwk", Sub: "svc", SANs: []string{"a.example.com"}, Key: "ec"},
 		// fingerprint
 		{Prov: "jwk", Sub: "svc", SANs: []string{"a.example.com"}, Cnf: "ok", Key: "ec"},
 		{Prov: "jwk", Sub: "svc", SANs: []string{"a.example.com"}, Cnf: "bad", Key: "ec"},
@@ -424,6 +458,18 @@ func corner() []*Case {
 		{Prov: "jwktpl", Sub: "svc", SANs: []string{"a.example.com"}, UD: `{"extensions":[{"id":"not-an-oid","value":"BAEB"}]}`, Key: "ec"},
 		{Prov: "jwktpl", Sub: "svc", SANs: []string{"a.example.com"}, UD: `[1,2,3]`, Key: "ec"},
 		{Prov: "jwktpl", Sub: "svc", SANs: []string{"a.example.com"}, UD: `{"extensions":[{"id":"1.2.3.4.1"}]}`, Key: "ec"},
+		// through the real router and api.Sign
+		{Via: "api", Prov: "jwk", Sub: "a.example.com", SANs: []string{"a.example.com", "10.0.0.1"}, CN: "a.example.com", DNS: []string{"a.example.com"}, IPs: []string{"10.0.0.1"}, Key: "ec"},
+		{Via: "api", Prov: "jwk", Sub: "svc", SANs: []string{"a.example.com"}, DNS: []string{"a.example.com", "b.example.com"}, Key: "ec"},
+		{Via: "api", Prov: "jwk", Sub: "svc", SANs: []string{"a.example.com"}, BadSig: true, Key: "ec"},
+		{Via: "api", Prov: "nebula", NebHost: 0, Sub: "evil", SANs: []string{"evil.example.com"}, BadSig: true, Key: "ec"},
+		{Via: "api", Prov: "nebula", NebHost: 0, Sub: "evil", SANs: []string{"evil.example.com"}, Key: "ec"},
+		{Via: "api", Prov: "jwk", Sub: "svc", SANs: []string{"a.example.com"}, UD: udPool[0], CExt: forged, Key: "ec"},
+		{Via: "api", Auth: adminIdx, Prov: "jwk", Sub: "svc", SANs: []string{"a.example.com"}, Key: "ec"},
+		{Auth: adminIdx, Prov: "jwkdis", Sub: "svc", SANs: []string{"a.example.com"}, Key: "ec"},
+		{Auth: adminIdx, Prov: "jwktpl", Sub: "svc", SANs: []string{"a.example.com"}, HasUExt: true, UExt: forged, Key: "ec"},
+		{Auth: adminIdx, Prov: "oidc", Sub: "1234", Email: "a@example.com", Key: "ec"},
+		{Auth: adminIdx, Prov: "x5c", Sub: "svc", SANs: []string{"a.example.com"}, CN: "svc", Key: "ec"},
 		// RA mode (stepcas in front of the issuing CA)
 		{RA: true, Prov: "jwk", Sub: "svc", SANs: []string{"a.example.com", "b.example.com"}, CN: "svc", DNS: []string{"a.example.com", "b.example.com"}, Key: "ec"},
 		{RA: true, Prov: "jwk", Sub: "svc", SANs: []string{"a.example.com", "b.example.com"}, CN: "b.example.com", Key: "ec"},
@@ -444,6 +490,16 @@ func corner() []*Case {
 		{Prov: "acme", Sub: "a.example.com", SANs: []string{"a.example.com"}, CN: "a.example.com", DNS: []string{"a.example.com"}, Key: "ec"},
 		{Prov: "acme", Sub: "a.example.com", SANs: []string{"a.example.com", "10.0.0.1"}, CExt: forged, UD: udPool[0], Key: "ec"},
 		{Auth: 2, Prov: "acme", Sub: "a.example.com", SANs: []string{"a.example.com"}, Key: "ec"},
+		// AWS instance identity
+		{Prov: "awsdcs", Sub: "inst", NoSANs: true, Key: "ec"},
+		{Prov: "awsdcs", Sub: "inst", NoSANs: true, DNS: []string{"ip-10-0-0-5.us-east-1.compute.internal"}, IPs: []string{"10.0.0.5"}, Key: "ec"},
+		{Prov: "awsdcs", Sub: "inst", NoSANs: true, DNS: []string{"db.internal.example.com"}, Key: "ec"},
+		{Prov: "awsdcs", Sub: "inst", NoSANs: true, IPs: []string{"10.0.0.6"}, Key: "ec"},
+		{Prov: "awsdcs", Sub: "inst", NoSANs: true, Emails: []string{"a@example.com"}, Key: "ec"},
+		{Prov: "awsdcs", Sub: "inst", NoSANs: true, CN: "evil", Key: "ec"},
+		{Prov: "awsdcs", Sub: "dns", NoSANs: true, CN: "ip-10-0-0-5.us-east-1.compute.internal", Key: "ec"},
+		{Prov: "aws", Sub: "inst", NoSANs: true, DNS: []string{"db.internal.example.com"}, Key: "ec"},
+		{Auth: 1, Prov: "awsdcs", Sub: "inst", NoSANs: true, Key: "ec"},
 		// K8sSA
 		{Prov: "k8ssa", Sub: "builder", CN: "anything", DNS: []string{"any.example.com"}, IPs: []string{"10.9.9.9"}, Key: "ec"},
 		{Prov: "k8ssa", Sub: "builder", Key: "ec"},
